@@ -79,7 +79,18 @@ def extract():
     td = preprocess("potassco/theory_data.h")
     for nm in ("Theory_t", "Tuple_t"):
         enums[nm] = enum_constants(td, nm, nm)
+    cl = preprocess("potassco/clingo.h")
+    for nm in ("Clause_t", "Statistics_t"):
+        enums[nm] = enum_constants(cl, nm, nm)
     out["enums"] = enums
+    # the declaration text each enumeration hands to EnumClass (`#__VA_ARGS__`, stringized by the preprocessor itself)
+    reps = {}
+    for src, names in ((bt, ("Head_t", "Body_t", "Value_t", "Heuristic_t", "Directive_t")), (td, ("Theory_t", "Tuple_t")), (cl, ("Clause_t", "Statistics_t"))):
+        for nm in names:
+            m = re.search(r'EnumClass\s+r\s*=\s*\{\s*"%s"\s*,\s*"([^"]*)"\s*,\s*eMin\s*,\s*eMax\s*\}' % nm, src)
+            if not m: raise ExtractError("extract:enum-rep:" + nm)
+            reps[nm] = m.group(1)
+    out["reps"] = reps
     return out
 
 def function_body(src, signature):
@@ -129,6 +140,8 @@ def render(c):
         L.append("def %s_eMax : Int := %d" % (nm, items[-1][1]))
         for k, v in items:
             L.append("def %s_%s : Int := %d" % (nm, k, v))
+        L.append("/-- the declaration text `%s::enumClass()` hands to `EnumClass` (as the preprocessor stringizes it) -/" % nm)
+        L.append("def %s_rep : List Nat := [%s]" % (nm, ", ".join(str(ord(ch)) for ch in c["reps"][nm])))
         L.append("")
     L.append("end PotasscoVerif.Gen")
     return "\n".join(L) + "\n"
